@@ -7,12 +7,18 @@ from harness import pipeline as PL, solver as S
 
 SPEC = {
     "gen": ["Rotations", "GetHkl"],
-    "modules": ["DiffcalcProofs.Props.C03", "DiffcalcProofs.Props.C03Sample"],
+    "modules": ["DiffcalcProofs.Props.C03", "DiffcalcProofs.Props.C03Sample", "DiffcalcProofs.Props.C03Sample2", "DiffcalcProofs.Props.C03Sample3",
+                "DiffcalcProofs.Props.C03Sample4", "DiffcalcProofs.Props.C03Sample5"],
     "theorems": {"DiffcalcProofs.Props.C03": [
         "C03.detFromQaz_complete", "C03.filter_keeps_exact", "C03.hklMatches_exact", "C03.allOrNothing",
         "C03.asin_roots_complete", "C03.acos_roots_complete"],
         "DiffcalcProofs.Props.C03Sample": ["C03.inner_of_sampleSpec", "C03.sameAngle_of_rot", "C03.sampleConMuEta_complete", "C03.sampleConMuEta_total",
-                                           "C03.atan_roots_complete", "C03.omegaBisect_complete", "C03.muBisect_complete"]},
+                                           "C03.atan_roots_complete", "C03.omegaBisect_complete", "C03.muBisect_complete"],
+        "DiffcalcProofs.Props.C03Sample2": ["C03.sampleConMu_complete", "C03.sampleConPhi_complete", "C03.sampleFromChiEta_complete", "C03.sampleConChi_complete",
+                                            "C03.sampleConEta_complete"],
+        "DiffcalcProofs.Props.C03Sample3": ["C03.lastSampleAngle_complete", "C03.detSpec_congr", "C03.threeSample_complete"],
+        "DiffcalcProofs.Props.C03Sample4": ["C03.remainingBranch_complete", "C03.remainingSample_complete"],
+        "DiffcalcProofs.Props.C03Sample5": ["C03.etaBisect_complete"]},
     "level": "proof",
     "rule": "all 185 implemented modes: a random physical position P over (-180,180]^6 (constructed to satisfy the void / bisect / omega constraints where the "
             "mode has them), its constraint values read off with independent geometric pseudo-angles, hkl = forward model of P; P must be a regular point "
@@ -20,10 +26,11 @@ SPEC = {
             "implementation at candidate level (__calc_hkl_to_position); distinct = modes with at least one recovered position",
     "assumptions": ["regularity is judged numerically; bisect modes by construction of a generic position"],
     "partial": "proved: the root-enumeration lemmas (asin / acos pairs exhaust the solutions mod 2 pi), completeness of the detector layer from qaz, an exactly consistent candidate "
-               "passes filter and guard, and the all-or-nothing structure of get_position. Branch completeness of the sample layer is proved for "
-               "the mu+eta branch (sampleConMuEta_complete: any (chi, phi) solving the sample relation is returned mod 2 pi — both asin roots, chi fixed by the rotation equations) and for "
-               "omega+bisect on top of it (omegaBisect_complete: both atan roots x both asin roots, no failure of a sibling pair can lose the list); the other branches are covered by "
-               "candidate-level correspondence + round-trip oracle only.",
+               "passes filter and guard, and the all-or-nothing structure of get_position. Branch completeness of the sample layer (every solution of the branch's equation is returned mod 2 pi, "
+               "sibling roots cannot lose the list) is proved for: the mu+eta branch and the three bisect branches built on it (omega / mu / eta + bisect); all four single-sample branches of the "
+               "detector+reference family (mu, phi, chi, eta given: ZYZ / XZY Euler angles, remainingSample_complete); and the whole three-sample family end to end "
+               "(threeSample_complete: free axis from the y-component, qaz read off, detector from qaz). The five remaining detector+two-sample branches and the six reference+two-sample "
+               "branches are covered by candidate-level correspondence + round-trip oracle only.",
     "search_widen": 4,
 }
 
@@ -45,15 +52,35 @@ def requests(ctx, per_mode):
                 break
         # positions with some axes at exactly 0 / 90 / 180 (4-circle sub-geometries included) that are still regular points of the mode
         # (bisect modes excepted: their regularity is judged by construction from a generic position, not by the Jacobian)
-        for _ in range(per_mode * 2 if "bisect" not in tr else 0):
+        ks = 0
+        for _ in range(per_mode * 3 if "bisect" not in tr else 0):
             r = PL.construct_request(ctx.rng, ub, tr, P0=PL.semi_special_position(ctx.rng))
             if r is None:
                 continue
             ub2, vals, hkl, P = r
             if not PL.regular(ub2, tr, P):
                 continue
-            out.append((ub2, vals, hkl, 1.0, P, tr))
-            break
+            out.append((ub2, vals, hkl, 1.0, P, tr)); ks += 1
+            if ks >= 2:
+                break
+        # one or two axes a hair (1e-6 ... 3e-2 deg) off 0 / +-90 / 180: the band between "exactly special" and "generic", where a widened
+        # shortcut or a tolerance in the wrong unit hides
+        kn = 0
+        for _ in range(per_mode * 3 if "bisect" not in tr else 0):
+            P0 = [ctx.rng.uniform(-170, 170) for _ in range(6)]
+            axes_in_mode = [AXES.index(nm) for nm in tr if nm in AXES]
+            picks = ctx.rng.sample(range(6), ctx.rng.randint(1, 2)) if not axes_in_mode or ctx.rng.random() < 0.4 else [ctx.rng.choice(axes_in_mode)]
+            for i in picks:
+                P0[i] = float(ctx.rng.choice([0, 90, -90, 180])) + (10.0 ** ctx.rng.uniform(-6, -1.5)) * ctx.rng.choice((-1, 1))
+            r = PL.construct_request(ctx.rng, ub, tr, P0=P0)
+            if r is None:
+                continue
+            ub2, vals, hkl, P = r
+            if not PL.regular(ub2, tr, P):
+                continue
+            out.append((ub2, vals, hkl, 1.0, P, tr)); kn += 1
+            if kn >= 2:
+                break
     return out
 
 
